@@ -1003,7 +1003,11 @@ def literal_value(node: ast.AST) -> bool:
         return getattr(node_value, node.func.attr)(*args)
 
     if isinstance(node, ast.Call):
-        if isinstance(node.func, ast.Name) and node.func.id in constants.SAFE_CALLABLES:
+        if (
+            isinstance(node.func, ast.Name)
+            and node.func.id in constants.SAFE_CALLABLES
+            and not node.keywords  # Keyword arguments are not evaluated
+        ):
             args = [literal_value(arg) for arg in node.args]
             return getattr(builtins, node.func.id)(*args)
 
